@@ -438,7 +438,7 @@ Qed.
 Lemma bootstrap_unsaved i st : m_bootstrap i = Ok st -> m_unsaved st = [].
 Proof.
   unfold m_bootstrap.
-  set (st0 := {| m_parsers := []; m_listp := _; m_defaults := _; m_config := []; m_unsaved := [] |}).
+  set (st0 := {| m_parsers := []; m_listp := _; m_defaults := _; m_config := _; m_unsaved := [] |}).
   assert (forall rows s s1, setup_rows (i_store i) s rows = Ok s1 -> m_unsaved s = [] -> m_unsaved s1 = []) as Hrows.
   { induction rows as [|r rows IH]; intros s s1 H HU; cbn [setup_rows] in H.
     - inversion H. subst. assumption.
@@ -464,7 +464,7 @@ Definition w_store : list (bytes * list bytes) :=
 Definition w_table : list (bytes * bytes) :=
   [(bs "Log", bs "LineList"); (bs "ExitNodes", bs "RouterList"); (bs "NumCPUs", bs "Integer")].
 Definition w_input (ops : list op) : cfg_input :=
-  {| i_table := w_table; i_store := w_store; i_defaults := Some []; i_ops := ops |}.
+  {| i_table := w_table; i_store := w_store; i_defaults := Some []; i_pre := None; i_ops := ops |}.
 
 (* F1: pop the only element, save *)
 Definition w_f1 := w_input [OpListOp (bs "Log") (LPop None); OpSave None; OpRead (bs "Log")].
@@ -473,6 +473,11 @@ Definition w_f2 := w_input [OpListOp (bs "ExitNodes") (LRemove (AStr (bs "zz")))
 (* F3: assign, then edit in place, save *)
 Definition w_f3 := w_input [OpAssign (bs "ExitNodes") (PList [AStr (bs "x")]);
                             OpListOp (bs "exitnodes") (LAppend (AStr (bs "y"))); OpSave None; OpRead (bs "ExitNodes")].
+(* F4: a list holding the integer 0 is saved (SETCONF Log=0 goes out, Tor holds the text "0"), but the view
+   keeps the int: removing the line "0" that Tor holds raises ValueError *)
+Definition w_f4 := w_input [OpAssign (bs "Log") (PList [AInt 0%Z]); OpSave None; OpListOp (bs "Log") (LRemove (AStr (bs "0")))].
+(* ... and an empty string stays in the view although Tor does not hold it *)
+Definition w_f4e := w_input [OpListOp (bs "Log") (LAppend (AStr [])); OpSave None].
 (* a history outside the open classes that exercises every clause *)
 Definition w_ok := w_input [OpAssign (bs "numcpus") (PAtom (AStr (bs "007")));
                             OpListOp (bs "Log") (LAppend (AStr (bs "info file /tmp/x")));
@@ -495,6 +500,19 @@ Lemma f2_now_accepted :
     /\ nth_error (map o_res tr) 1 = Some (XBool false) /\ map o_wrote tr = [[]; []; []].
 Proof. split; [vm_compute; reflexivity|]. split; [vm_compute; reflexivity|].
        eexists _, _. split; [vm_compute; reflexivity|]. split; [vm_compute; reflexivity|]. split; vm_compute; reflexivity. Qed.
+Lemma f4_refuted : refutes w_f4 /\ odd_element_saved w_f4 = true /\ refutes w_f4e /\ odd_element_saved w_f4e = true.
+Proof. split; [split; [vm_compute; reflexivity|eexists _, _; split; vm_compute; reflexivity]|].
+       split; [vm_compute; reflexivity|]. split; [|vm_compute; reflexivity].
+       split; [vm_compute; reflexivity|eexists _, _; split; vm_compute; reflexivity]. Qed.
+(* falsy elements are sent like any other: the rejected save of [0; ""; "x"] writes all three entries *)
+Definition w_falsy := w_input [OpAssign (bs "Log") (PList [AInt 0%Z; AStr []; AStr (bs "x")]); OpSave (Some 552); OpNeedsSave].
+Lemma falsy_example :
+  c10_scope w_falsy = true /\ c10_known w_falsy = false /\
+  exists snap tr, model_run w_falsy = Some (true, snap, tr) /\ oracle w_falsy tr = true
+    /\ concat (map o_wrote tr) = [bs "SETCONF Log=0 Log= Log=x"].
+Proof. split; [vm_compute; reflexivity|]. split; [vm_compute; reflexivity|].
+       eexists _, _. split; [vm_compute; reflexivity|]. split; vm_compute; reflexivity. Qed.
+
 Lemma f3_refuted : refutes w_f3 /\ edit_while_detached w_f3 = true.
 Proof. split; [split; [vm_compute; reflexivity|]|vm_compute; reflexivity].
        eexists _, _. split; vm_compute; reflexivity. Qed.
